@@ -1,6 +1,8 @@
 package main
 
 import (
+	"time"
+	"reflect"
 	"fmt"
 	"net/url"
 	"regexp"
@@ -331,11 +333,32 @@ func suiteC17(cfg Config, res *Result) {
 		if !strings.HasPrefix(c.impl, "ok") {
 			continue
 		}
-		r := implRender("{% autoescape off %}{{ v|"+c.f+" }}{% endautoescape %}", pongo2.Context{"v": c.in})
+		// … written directly, in the body of a local or an imported macro, in a parent's block reached
+		// through block.Super: with autoescape off around the place it is used
+		// from, what comes out is what the filter returned
+		f := c.f
+		files := map[string]string{
+			"lib.tpl":  "{% macro lm(x) export %}{{ x|" + f + " }}{% endmacro %}",
+			"base.tpl": "{% block c %}{{ v|" + f + " }}{% endblock %}",
+			"inc.tpl":  "{{ v|" + f + " }}",
+		}
+		shapes := []string{
+			"{% autoescape off %}{{ v|" + f + " }}{% endautoescape %}",
+			"{% macro mm() %}{{ v|" + f + " }}{% endmacro %}{% autoescape off %}{{ mm() }}{% endautoescape %}",
+			"{% macro mm(x) %}{{ x|" + f + " }}{% endmacro %}{% autoescape off %}{% if 1 %}{{ mm(v) }}{% endif %}{% endautoescape %}",
+			`{% import "lib.tpl" lm %}{% autoescape off %}{{ lm(v) }}{% endautoescape %}`,
+			`{% extends "base.tpl" %}{% block c %}{% autoescape off %}{{ block.Super }}{% endautoescape %}{% endblock %}`,
+			// (an included template starts a rendering of its own, with the set's autoescape default: not a shape here)
+			"{% autoescape off %}{% with w=v %}{% for q in one %}{{ w|" + f + " }}{% endfor %}{% endwith %}{% endautoescape %}",
+			"{% autoescape on %}{% autoescape off %}{% filter " + f + " %}{{ v }}{% endfilter %}{% endautoescape %}{% endautoescape %}",
+		}
+		k := (i / 97) % len(shapes)
+		r := implRenderFiles(shapes[k], files, pongo2.Context{"v": c.in, "one": []int{1}})
 		if r.Err != "" || r.Panicked || r.Out != c.out {
-			res.add(Finding{Kind: "oracle", Proj: "filter", Sig: "c17-template-vs-api", Case: hx(c.in), Impl: r.String(), Model: fmt.Sprintf("ApplyFilter(%s) = %s", c.f, hx(c.out))})
+			res.add(Finding{Kind: "oracle", Proj: "filter", Sig: fmt.Sprintf("c17-template-vs-api-shape%d", k), Case: hx(c.in) + " in " + shapes[k], Impl: r.String(), Model: fmt.Sprintf("ApplyFilter(%s) = %s", c.f, hx(c.out))})
 		}
 	}
+	c17SafeIdentity(res)
 	res.Cases = len(cases)
 	for i := 0; i < 3 && i < len(cases); i++ {
 		c := cases[len(cases)-1-i*8]
@@ -353,6 +376,39 @@ func suiteC17(cfg Config, res *Result) {
 		}
 		if model[i] != c.impl {
 			res.add(Finding{Kind: "disagree", Proj: "filter", Sig: "c17-" + c.f + "-model", Case: hx(c.in), Impl: c.impl, Model: model[i]})
+		}
+	}
+}
+
+// c17SafeIdentity: `safe` returns its input unchanged — the value itself, of whatever kind, so that
+// what follows it in a chain or uses it as a value sees what it would have seen without it
+func c17SafeIdentity(res *Result) {
+	n := 41
+	str := "<b>"
+	type pt struct{ X, Y int }
+	vals := []any{41, int8(-3), uint8(200), uint64(1 << 63), 2.5, float32(0.5), true, false, nil, "", "<b>", &str, &n,
+		[]string{"a", "<", "c"}, [3]int{1, 2, 3}, []any{1, "x", nil}, map[string]int{"k": 1}, pt{1, 2}, &pt{3, 4}, SInt(5), time.Duration(90) * time.Second, []byte("ab")}
+	for _, v := range vals {
+		out, err := pongo2.ApplyFilter("safe", pongo2.AsValue(v), nil)
+		if err != nil || out == nil || !reflect.DeepEqual(out.Interface(), v) {
+			got := "error"
+			if err == nil && out != nil {
+				got = fmt.Sprintf("%T %#v", out.Interface(), out.Interface())
+			}
+			res.add(Finding{Kind: "oracle", Proj: "filter", Sig: "c17-safe-not-the-input", Case: fmt.Sprintf("%T %#v", v, v), Impl: got, Model: "safe returns its input unchanged"})
+		}
+	}
+	ctx := pongo2.Context{"n": 41, "u": uint8(200), "f": 2.5, "t": true, "l": []string{"a", "<", "c"}, "m": map[string]int{"k": 1}, "p": &pt{3, 4}, "nl": nil, "s": "<b>"}
+	for _, c := range []string{"{{ n|@|add:1 }}", "{{ u|@|add:1 }}", "{{ f|@|floatformat:2 }}", "{{ t|@|yesno:\"y,n\" }}", "{{ l|@|join:\",\" }}", "{{ l|@|length }}", "{{ l|@|first }}",
+		"{% for x in l|@ %}[{{ x }}]{% endfor %}", "{{ m|@|length }}", "{% with w=p|@ %}{{ w.X }}{% endwith %}", "{{ nl|@|default_if_none:\"d\" }}", "{% if n|@ == 41 %}y{% endif %}", "{% if \"a\" in l|@ %}y{% endif %}",
+		"{% with w=l|@ %}{{ w.2 }}{% endwith %}", "{{ s|@|length }}", "{{ s|@|upper }}", "{{ n|@|@|divisibleby:41 }}", "{% set q = n|@ %}{{ q + 1 }}"} {
+		with := strings.ReplaceAll(c, "|@", "|safe")
+		without := strings.ReplaceAll(c, "|@", "")
+		a := implRender("{% autoescape off %}"+with+"{% endautoescape %}", ctx)
+		b := implRender("{% autoescape off %}"+without+"{% endautoescape %}", ctx)
+		res.Cases++
+		if a.String() != b.String() {
+			res.add(Finding{Kind: "oracle", Proj: "filter", Sig: "c17-safe-changes-the-value", Case: with, Impl: a.String(), Model: "as without safe: " + b.String()})
 		}
 	}
 }
